@@ -363,3 +363,6 @@ func (n *ModelNode) SyncFrom(src Node) error {
 }
 
 func (n *ModelNode) Destroy() {}
+
+// SetRevision sets the node's revision counter (used by other engines to build replicas of different age).
+func (n *ModelNode) SetRevision(r int64) { n.rev, n.metaRev = r, r }
